@@ -30,7 +30,9 @@ def loop_contract(func_symbol, loop_id, invariants, assigns, decreases, locals_m
     goto-instrument --show-loops); locals_map maps names used in the clauses to suffixes below that symbol."""
     import re as _re
     sm = ";".join("%s,%s::%s" % (k, func_symbol, v) for k, v in locals_map.items())
-    ent = {"loop_id": str(loop_id), "invariants": invariants, "symbol_map": sm}
+    ent = {"loop_id": str(loop_id), "invariants": invariants}
+    if sm:
+        ent["symbol_map"] = sm
     if assigns:          # None/"" => goto-instrument infers the loop's assigns clause (robust against new locals in the loop)
         ent["assigns"] = assigns
     if decreases:
